@@ -10,10 +10,18 @@ import history as H
 
 LEVEL = "proof"
 TRUSTED = ["model: coq/Model/Store.v (state machine over a store; every operation returns through mk_ts / mk_ts_sup / mk_iset as the wrappers do) built from the kernel models; "
-           "theorems: Proofs/StoreProofs.v (step_WF, run_WF)"]
-ASSUMPTIONS = ["data values are abstracted away in the model (threshold/dropna take the kept mask as an argument)",
-               "starting series span a positive duration (the property's hypothesis)",
-               "operations not in the model (listed in coverage.ops_unmodelled) are exercised on the implementation with the well-formedness oracle only"]
+           "theorems: Proofs/StoreProofs.v (step_WF, run_WF)",
+           "C04_group_members is stated on the group model coq/Model/Group.v with the proofs of Proofs/GroupProofs.v; that model is tied to the implementation by C12's check, not by this one"]
+ASSUMPTIONS = ["data values are abstracted away in the model (threshold/dropna take the kept mask as an argument): the clause 'one data row per timestamp' and, for objects other than group "
+               "members, the equality 'rate = n / duration' are enforced by the oracle on the implementation only (the store model has no rows and no rate field; the theorems give "
+               "'a non-empty well-formed series has a support of positive duration' (C04_rate_defined) and, on the group model, the group clause and the members' rate (C04_group_members))",
+               "starting series (the two Tsd every history begins with) span a positive duration (the property's hypothesis); every LATER object - empty, one-sample, duplicate-timestamp, "
+               "support-less - is fed to the operations as it comes",
+               "operations not in the model (listed in coverage.ops_unmodelled) are exercised on the implementation with the well-formedness oracle only",
+               "an exception produces no object and is therefore outside C04's statement: exceptions of unmodelled calls are counted per call (distribution exception:<family>/<call>) and the "
+               "other calls of the same operation are still checked; an exception of a MODELLED operation is a disagreement with the model",
+               "IntervalSet([], []).time_span() raises IndexError while the model returns the empty set: the call is not made on an empty set (counted as skipped:time_span_of_empty_set)",
+               "the order of a TsGroup's keys is C12's clause and is not part of this oracle"]
 
 
 def _nap():
@@ -27,10 +35,14 @@ def run(res, tier, seed):
     nh = 500 if tier == "quick" else 5000
     length = 12 if tier == "quick" else 40
     res.rule = ("histories: %d seeded random operation sequences of length %d over a store of live objects (16 modelled operation kinds: constructors incl. malformed interval input, "
-                "restrict, get, count, value_from, threshold, dropna, support, union/intersect/set_diff, time_span, drop_short, merge_close) executed on the implementation and on the "
-                "extracted state machine, abstract states (timestamps, support) compared after EVERY step; 25 unmodelled operation kinds interleaved on the implementation; the "
-                "well-formedness statement (sorted, one row per timestamp, inside a canonical support, rate = n / duration, group members on the group support) evaluated on every "
-                "object produced. non-trivial = a step whose result has >= 1 sample or interval; distinct = (history id, step)" % (nh, length))
+                "restrict, get, count, value_from, threshold, dropna - also on empty series -, support, union/intersect/set_diff, time_span, drop_short, merge_close) executed on the "
+                "implementation and on the extracted state machine, abstract states (timestamps, support) compared after EVERY step; %d unmodelled operation families (each a list of "
+                "separately guarded public calls) interleaved on the implementation. Their input is ANY series of the store - Ts, Tsd, TsdFrame or TsdTensor, results of earlier "
+                "operations included, of any length (empty, one sample, duplicates) and any support (empty, one or several intervals) - half of the time re-cast to another of the four "
+                "classes through the public constructor; one family builds timestamps and support edges off the lattice (edges on, 1 ns, 0.5 us and 1 us away from samples; touching intervals); "
+                "groups are built with an explicit and with the default (union) support. The well-formedness statement (sorted, one row per timestamp, inside a canonical support, "
+                "rate = n / duration, non-empty group members on the group support) is evaluated on every object produced (count: objects_checked). "
+                "non-trivial = a step whose result has >= 1 sample or interval; distinct = (history id, step)" % (nh, length, len(set(H.UNMODELLED))))
     lines, runs = [], []
     opk = {}
     for hid in range(nh):
@@ -41,6 +53,16 @@ def run(res, tier, seed):
             opk[c.split()[0]] = opk.get(c.split()[0], 0) + 1
         for u in r["unmodelled"]:
             res.count("unmodelled=" + u)
+        for i in r["unmodelled_inputs"]:
+            if i:
+                res.count("unmodelled_input_class=" + i["cls"])
+                res.count("unmodelled_input_len=" + i["len"])
+                res.count("unmodelled_input_support_intervals=" + i["support"])
+                if i["dup"]:
+                    res.count("unmodelled_input_with_duplicate_timestamps")
+        for sk in r["skipped"]:
+            res.count("skipped:" + sk)
+        res.count("objects_checked", r["n_checked"])
     out = C.run_model(lines)
     for hid, (r, mo) in enumerate(zip(runs, out)):
         mods = [H.norm_abs(x) for x in mo.split("|")] if mo else []
@@ -49,13 +71,17 @@ def run(res, tier, seed):
             if step < len(mods) and mods[step] != a:
                 res.disagreements.append({"op": r["codes"][step], "input": {"history": r["codes"][: step + 1], "seed": [seed, hid]}, "impl": a, "model": mods[step]})
                 break
-        for label, w, code in r["wf"]:
-            res.violations.append({"key": {"op": label.split(":")[-1], "part": "well-formed", "zero_span_default_support": w.startswith("zero-span")},
-                                   "what": "an object reachable through the API is not well formed: " + w,
+        for (label, w, code), k in zip(r["wf"], r["wf_keys"]):
+            # key: the call (op = the library function / sub-call, family = the operation family of the history, variant), the clause of the statement that fails, the class
+            # of the result, and the precise trigger of the known zero-span quirk: the RESULT is a non-empty series whose timestamps all coincide under an EMPTY support
+            # (zero_span_default_support) and the INPUT of the call already had coinciding timestamps (zero_span_input; None for modelled operations)
+            key = dict(k)
+            key["part"] = "well-formed"
+            res.violations.append({"key": key, "what": "an object reachable through the API is not well formed (%s, a %s): %s" % (label, k["result"], w),
                                    "input": {"history": r["codes"], "seed": [seed, hid], "at": label}})
         for label, e in r["exc"]:
-            # an exception produces no object: outside C04's statement (well-formedness of what IS produced); counted for the record
-            res.count("exception:" + label.split(":")[-1])
+            # an exception produces no object: outside C04's statement (well-formedness of what IS produced); counted for the record, per call
+            res.count("exception:" + label.split(":", 1)[-1])
             if label.startswith("op"):
                 res.disagreements.append({"op": label, "what": "a modelled operation raised on the implementation: " + e,
                                           "input": {"history": r["codes"], "seed": [seed, hid]}})
@@ -84,5 +110,6 @@ def replay(payload):
     r = H.run_history(nap, seed, hid, max(n, 12), 0.5)
     print("history", r["codes"])
     print("well-formedness failures:", r["wf"])
-    print("exceptions:", r["exc"])
-    return 1 if r["wf"] or r["exc"] else 0
+    print("well-formedness failure keys:", r["wf_keys"])
+    print("exceptions (no object produced; only those of modelled operations count):", r["exc"])
+    return 1 if r["wf"] or any(label.startswith("op") for label, _ in r["exc"]) else 0
